@@ -487,3 +487,103 @@ func verifH_C16_same_name_kinds() {
 	verifAssert(reflect.DeepEqual(before, probe(doc2)), "C16 same name: after internalising, serialising and reloading every schema of the operation dereferences to the same content as before")
 	verifReach("end")
 }
+
+//verif:harness id=C16 tier=quick,thorough witness=end bounds="root components that are themselves references into another file whose target uses that file's own #/components references: components.parameters / requestBodies / responses / headers entry = e.json#/components/<kind>/E, E reaching e.json's Leaf (and, for the response, e.json's header and example) while the root has a different Leaf; plus a media type without schema whose examples are external references; after InternalizeRefs + serialise + reload (no external reads) every probed schema dereferences to the same content as before and nothing names e.json any more"
+func verifH_C16_component_refs() {
+	files := map[string]string{
+		"/r/e.json": `{"components":{` +
+			`"schemas":{"Leaf":{"type":"string","minLength":9}},` +
+			`"examples":{"Ex":{"value":"exexexexex"}},` +
+			`"headers":{"E":{"schema":{"$ref":"#/components/schemas/Leaf"}}},` +
+			`"parameters":{"E":{"name":"p","in":"query","schema":{"$ref":"#/components/schemas/Leaf"}}},` +
+			`"requestBodies":{"E":{"content":{"application/json":{"schema":{"$ref":"#/components/schemas/Leaf"}}}}},` +
+			`"responses":{"E":{"description":"d","headers":{"X":{"$ref":"#/components/headers/E"}},"content":{"application/json":{"schema":{"$ref":"#/components/schemas/Leaf"},"examples":{"x":{"$ref":"#/components/examples/Ex"}}}}}}}}`,
+	}
+	kind := verifChoose("kind", 5)
+	comps := `"schemas":{"Leaf":{"type":"integer"}}`
+	op := `"responses":{"200":{"description":"d"}}`
+	switch kind {
+	case 0:
+		comps += `,"parameters":{"RP":{"$ref":"e.json#/components/parameters/E"}}`
+		op = `"parameters":[{"$ref":"#/components/parameters/RP"}],` + op
+	case 1:
+		comps += `,"requestBodies":{"RB":{"$ref":"e.json#/components/requestBodies/E"}}`
+		op = `"requestBody":{"$ref":"#/components/requestBodies/RB"},` + op
+	case 2:
+		comps += `,"responses":{"RR":{"$ref":"e.json#/components/responses/E"}}`
+		op = `"responses":{"200":{"$ref":"#/components/responses/RR"}}`
+	case 3:
+		comps += `,"headers":{"RH":{"$ref":"e.json#/components/headers/E"}}`
+		op = `"responses":{"200":{"description":"d","headers":{"X":{"$ref":"#/components/headers/RH"}}}}`
+	case 4:
+		// no schema at all: only examples, by external reference
+		op = `"responses":{"200":{"description":"d","content":{"application/json":{"examples":{"x":{"$ref":"e.json#/components/examples/Ex"}}}}}}`
+	}
+	rootText := `{"openapi":"3.0.0","info":{"title":"t","version":"1"},"paths":{"/a":{"post":{"operationId":"op",` + op + `}}},"components":{` + comps + `}}`
+	rootLoc := &url.URL{Path: "/r/doc.json"}
+	loader := NewLoader()
+	loader.IsExternalRefsAllowed = true
+	loader.ReadFromURIFunc = func(l *Loader, u *url.URL) ([]byte, error) {
+		if u.Path == rootLoc.Path {
+			return []byte(rootText), nil
+		}
+		if t, ok := files[u.Path]; ok {
+			return []byte(t), nil
+		}
+		return nil, errors.New("no such file")
+	}
+	doc, err := loader.LoadFromDataWithPath([]byte(rootText), rootLoc)
+	verifAssert(err == nil && doc != nil, "C16 component refs: the multi-file document loads")
+	if err != nil || doc == nil {
+		return
+	}
+	probe := func(d *T) any {
+		out := map[string]any{}
+		o := d.Paths.Value("/a").Post
+		if len(o.Parameters) > 0 && o.Parameters[0] != nil && o.Parameters[0].Value != nil {
+			out["param"] = verifDerefSchema(o.Parameters[0].Value.Schema, 0)
+		}
+		if o.RequestBody != nil && o.RequestBody.Value != nil {
+			if mt := o.RequestBody.Value.Content["application/json"]; mt != nil {
+				out["body"] = verifDerefSchema(mt.Schema, 0)
+			}
+		}
+		if r := o.Responses.Value("200"); r != nil && r.Value != nil {
+			if h := r.Value.Headers["X"]; h != nil && h.Value != nil {
+				out["header"] = verifDerefSchema(h.Value.Schema, 0)
+			} else if h != nil {
+				out["header"] = "unresolved"
+			}
+			if mt := r.Value.Content["application/json"]; mt != nil {
+				if mt.Schema != nil {
+					out["content"] = verifDerefSchema(mt.Schema, 0)
+				}
+				if ex := mt.Examples["x"]; ex != nil && ex.Value != nil {
+					out["example"] = ex.Value.Value
+				} else if ex != nil {
+					out["example"] = "unresolved"
+				}
+			}
+		} else if r != nil {
+			out["response"] = "unresolved"
+		}
+		return out
+	}
+	before := probe(doc)
+	doc.InternalizeRefs(context.Background(), nil)
+	b, merr := json.Marshal(doc)
+	verifAssert(merr == nil, "C16 component refs: the internalised document serialises")
+	if merr != nil {
+		return
+	}
+	verifAssert(!strings.Contains(string(b), "e.json"), "C16 component refs: no reference to the external file is left")
+	l2 := NewLoader()
+	l2.ReadFromURIFunc = func(*Loader, *url.URL) ([]byte, error) { return nil, errors.New("no reads expected") }
+	doc2, rerr := l2.LoadFromData(b)
+	verifAssert(rerr == nil && doc2 != nil, "C16 component refs: the internalised document loads with external references disallowed")
+	if rerr != nil || doc2 == nil {
+		return
+	}
+	verifAssert(reflect.DeepEqual(before, probe(doc2)), "C16 component refs: after internalising, serialising and reloading every probed schema and example is the same content as before")
+	verifReach("end")
+}
